@@ -205,7 +205,17 @@ func (db *Backend) HeadObject(bucketName, objectName string) (*gofakes3.Object, 
 		return nil, gofakes3.KeyNotFound(objectName)
 	}
 
-	return obj.data.toObject(nil, false)
+	result, err := obj.data.toObject(nil, false)
+	if err != nil {
+		return nil, err
+	}
+
+	// as in GetObject: the id is internal unless versioning is enabled
+	if bucket.versioning != gofakes3.VersioningEnabled {
+		result.VersionID = ""
+	}
+
+	return result, nil
 }
 
 func (db *Backend) GetObject(bucketName, objectName string, rangeRequest *gofakes3.ObjectRangeRequest) (*gofakes3.Object, error) {
